@@ -91,6 +91,7 @@ func runC14(r *harness.Run) {
 		c14GrowthChild() // never returns
 	}
 	runPinned(r, "C14")
+	reentrantFamily(r, "C14")
 	c := &c14Ctx{r: r}
 	r.Assumptions = []string{
 		"reference = Go port of Lua 5.1.4 lstrlib.c (internal/refs/lstrlib), validated against a hand-transcribed conformance table (go test) and, at run time, against its own static well-formedness classifier",
